@@ -6,6 +6,28 @@ HERE = os.path.dirname(os.path.dirname(os.path.abspath(__file__)))
 ALL = ["C%02d" % i for i in range(1, 21)]
 
 CLAIMED = {
+    "C02": dict(
+        engine="heap",
+        technique="TLA+ model checking (TLC) of Heap.tla rooting discipline + TLC-generated behaviours replayed on the real collector (HeapTrace.tla) + forced-collection schedule sweep of real programs validated by TLC (HeapSummary.tla: every collection well-formed, output equals the reference run)",
+        category="model_checking",
+        text="Heap.tla models roots exactly as the code has them (context registers, saves stack of registered C locals) with Collect enabled between any two mutator steps; "
+             "NoPrematureFree/HeldValid are model checked (and shown to fail, as a negative test, when an unregistered local is held across an allocation). The real collector is driven "
+             "along TLC-generated behaviours and its heap compared object by object after every step. Real programs touching the allocating C primitives are run under forced-collection "
+             "schedules (every allocation of sliding windows, every n-th with phases, seeded random; freed memory poisoned) and TLC accepts a run only if every post-GC heap walk is clean and "
+             "its output and exit status equal those of the reference run. A rejected run is bisected to the fatal collection and keyed by the C function holding the unrooted value.",
+        design_ref="5/C02",
+        note="Schedules are sampled per run in the quick tier (thorough covers every allocation index of each program); programs are a fixed catalogue in harness/scm/gcprogs; "
+             "collections are armed only after library loading (bootstrap keeps raw C strings in traced slots by design). Trusted: TLC, hooks H1-H3."),
+    "C16": dict(
+        engine="heap",
+        technique="TLA+ model checking (TLC) of Heap.tla (ephemeron rule, finalizers) and Fd.tla + TLC-generated ephemeron/finalizer behaviours replayed on the real collector (HeapTrace.tla) + descriptor histories of the real interpreter validated by TLC (FdTrace.tla)",
+        category="model_checking",
+        text="The ephemeron rule (value traced iff key reachable, fixpoint), broken-iff-key-reclaimed, and finalize-exactly-the-dead-once are actions/invariants of Heap.tla, model checked on small "
+             "configurations and used by TLC to accept or reject every step of TLC-generated behaviours executed on the real sexp_gc (micro heap: ephemerons, a finalizable type with a logging finalizer). "
+             "Fd.tla states descriptor ownership: closed exactly once, only by an explicit close of a reachable owner or by a finalizer of an unreachable one, all dropped owners closed by the next collection; "
+             "seeded histories of file/fileno ports (incl. forced collections at arbitrary points and an EMFILE exhaustion loop under ulimit) are validated event by event with /proc/self/fd as ground truth.",
+        design_ref="5/C16",
+        note="Weak hash tables of (chibi weak) are covered only through the ephemeron primitive they are built on. Trusted: TLC, hooks H2/H7, the driver's scrubbing of VM temporaries."),
     "C10": dict(
         engine="heap",
         technique="TLA+ model checking (TLC) of Heap.tla + TLC-generated behaviours replayed on the real allocator/collector and validated by TLC trace validation (HeapTrace.tla); whole-program GC traces validated by HeapSummary.tla",
